@@ -170,6 +170,26 @@ func genC17(e *emitter, tier string) {
 			return []NamedT{{"x", val([]int{3}, g, k)}}
 		}, G, K, 1))
 	}
+	// a graph whose nodes are NOT listed in topological order (not a valid ONNX graph: whatever Run does
+	// with it alone - today an error - it does concurrently too, without writing shared state), and a vector
+	// input multiplied with a shared weight matrix
+	for _, G := range gs {
+		gu := &GraphJ{Inputs: []VInfoJ{{Name: "x", Dt: "f32", Dims: []any{2, 2}}},
+			Nodes: []NodeJ{{Op: "Relu", Ins: []string{"later"}, Outs: []string{"y"}}, {Op: "Abs", Ins: []string{"x"}, Outs: []string{"mid"}},
+				{Op: "Add", Ins: []string{"mid", "x"}, Outs: []string{"later"}}, {Op: "Mul", Ins: []string{"y", "mid"}, Outs: []string{"z"}}},
+			Outputs: []string{"z"}}
+		e.emit(concCase("unsorted-nodes", func() (*gonnx.Model, error) { return loadModel(gu) }, gu, func(g, k int) []NamedT {
+			return []NamedT{{"x", val([]int{2, 2}, g, k)}}
+		}, G, K, 1))
+		gv := &GraphJ{Inputs: []VInfoJ{{Name: "v", Dt: "f32", Dims: []any{3}}},
+			Inits: []InitJ{{Name: "ws", T: smallT("f32", []int{3, 3}, 4)}, {Name: "wr", T: smallT("f32", []int{3, 2}, 5)}},
+			Nodes: []NodeJ{{Op: "MatMul", Ins: []string{"v", "ws"}, Outs: []string{"a"}}, {Op: "MatMul", Ins: []string{"v", "wr"}, Outs: []string{"b"}},
+				{Op: "MatMul", Ins: []string{"ws", "v"}, Outs: []string{"c"}}, {Op: "MatMul", Ins: []string{"a", "ws"}, Outs: []string{"d"}}},
+			Outputs: []string{"a", "b", "c", "d"}}
+		e.emit(concCase("vector-times-weight", func() (*gonnx.Model, error) { return loadModel(gv) }, gv, func(g, k int) []NamedT {
+			return []NamedT{{"v", val([]int{3}, g, k)}}
+		}, G, K, 1))
+	}
 	// operators that derive per-call values from the current input (Conv auto_pad from the spatial size,
 	// Concat/Reshape/Slice from their operands): concurrent Runs with different dynamic extents
 	for _, G := range gs {
